@@ -119,6 +119,12 @@ pub(crate) fn without_terminator(
     bytes: &[u8],
     line_term: LineTerminator,
 ) -> &[u8] {
+    // When the line terminator is CRLF, a line is still terminated by `\n`
+    // alone: the `\r` is optional.
+    if line_term.is_crlf() && bytes.last() == Some(&b'\n') {
+        let bytes = &bytes[..bytes.len() - 1];
+        return bytes.strip_suffix(b"\r").unwrap_or(bytes);
+    }
     let line_term = line_term.as_bytes();
     let start = bytes.len().saturating_sub(line_term.len());
     if bytes.get(start..) == Some(line_term) {
